@@ -470,11 +470,16 @@ class FieldValueSelector:
         """
         value: Union[AtomicValueType, list[Optional[AtomicValueType]], None] = None
         element_node.schema = None  # type: ignore[assignment]
-        context = XPathContext(
-            element_node,
-            namespaces=namespaces,
-            schema=self.xpath_proxy,
-        )
+        try:
+            context = XPathContext(
+                element_node,
+                namespaces=namespaces,
+                schema=self.xpath_proxy,
+            )
+        except ValueError:
+            # The schema can't be applied to the subtree (e.g. an xsi:type that is not
+            # a QName, an error reported by the element that carries it): untyped values
+            context = XPathContext(element_node, namespaces=namespaces)
 
         empty = True
         for node in cast(Iterator[IdentityNodeType], self.token.select(context)):
